@@ -515,6 +515,68 @@ Proof.
   now rewrite enc_slots_singletons, enc_vkids, indexed_snd, bjoin_bsplit.
 Qed.
 
+(* --- a field whose table reference has no datatype (reserved positions of v2.5.1): parsed like a
+       varies field (components VARIES_i), encoded by joining all the children --- *)
+
+Definition untyped_field (n : str) (sto : option structure) (text : str) : field :=
+  mk_field_rec (Some n) None sto (vkids (indexed (bsplit (csep e) text))).
+
+Lemma parse_components_aux_untyped st l :
+  has_map st = false -> Forall (fun p => subs_fix (unbs "ST") (snd p)) l ->
+  parse_components_aux t TOLERANT e leaf None st l = Ok (vkids l).
+Proof.
+  intros Hm. induction 1 as [|[i s] l Hs _ IH]; [reflexivity|].
+  cbn [parse_components_aux]. rewrite base_none. cbn [opt_is_none orb]. rewrite Hm.
+  change (name_idx (unbs "VARIES") i) with (name_idx VARIES i).
+  rewrite name_idx_varies_starts, !orb_true_r.
+  cbn [snd] in Hs. rewrite (parse_component_varies i s Hs), IH. reflexivity.
+Qed.
+
+Lemma vcc_untyped_child pn pst i :
+  valid_child_complex t TOLERANT pn None pst (Some (name_idx VARIES i)) None = Ok true.
+Proof.
+  unfold valid_child_complex. rewrite base_none. cbn [negb opt_is_none orb andb].
+  rewrite valid_child_name_idx. reflexivity.
+Qed.
+
+Lemma add_comps_untyped : forall l f, f_dt f = None ->
+  add_comps t TOLERANT f (vkids l) =
+  Ok (mk_field_rec (f_name f) (f_dt f) (f_st f) (f_children f ++ vkids l)).
+Proof.
+  induction l as [|[i s] l IH]; intros f Hf.
+  - cbn [vkids map add_comps]. rewrite app_nil_r. now destruct f.
+  - cbn [vkids map add_comps fst snd]. rewrite Hf, base_none. rewrite andb_false_r. cbn [andb].
+    cbn [varies_comp c_name c_dt]. rewrite vcc_untyped_child. cbn [bind negb].
+    rewrite card_ok_tolerant. cbn [negb].
+    fold (varies_comp i s). fold (vkids l). rewrite IH by reflexivity.
+    cbn [f_name f_dt f_st f_children]. now rewrite <- app_assoc.
+Qed.
+
+Lemma parse_field_untyped text name ref fv n sto :
+  field_ctor name ref fv = Ok (mk_field_rec (Some n) None sto []) ->
+  is_msh12 name = false -> has_map sto = false -> vcomps_fix text ->
+  parse_field t TOLERANT e leaf text name ref fv = Ok (untyped_field n sto text).
+Proof.
+  intros Hc Hm Hh Hs. rewrite parse_field_unfold, Hc, Hm. cbn [bind f_dt f_st].
+  unfold parse_components. rewrite (parse_components_aux_untyped sto _ Hh).
+  2:{ unfold vcomps_fix in Hs. rewrite <- (indexed_snd (bsplit (csep e) text)) in Hs.
+      now rewrite Forall_map in Hs. }
+  cbn [bind is_strict negb andb]. rewrite base_none. cbn [andb].
+  rewrite add_comps_untyped by reflexivity. reflexivity.
+Qed.
+
+Lemma enc_field_untyped n sto text : not_msh12 n -> enc_field t e (untyped_field n sto text) = Ok text.
+Proof.
+  intros Hm. unfold enc_field, untyped_field. cbn [f_name f_dt f_children].
+  unfold not_msh12 in Hm. rewrite Hm. rewrite is_varies_none, base_none. cbn [opt_is_none orb]. f_equal.
+  rewrite enc_slots_all.
+  - now rewrite enc_vkids, indexed_snd, bjoin_bsplit.
+  - intros H. unfold vkids in H. apply map_eq_nil in H.
+    assert (L : length (indexed (bsplit (csep e) text)) = 0) by now rewrite H.
+    unfold indexed in L. rewrite combine_length, seq_length, Nat.min_id in L.
+    destruct (bsplit (csep e) text) eqn:E; [exact (bsplit_ne _ _ E)|discriminate].
+Qed.
+
 (* ------------------------------------------------------------------ *)
 (* the field loop of a segment                                          *)
 
